@@ -403,6 +403,19 @@ Definition woken (ps : list call) : list call := woken_from close_wakeup [] ps.
 Definition one_per_stream (ps : list call) : Prop :=
   NoDup (filter (fun c => match close_wakeup c with WakeOne => true | WakeAll => false end) ps).
 
+(** * The CONNECTION_CLOSE frame per encryption level (packetPacker.packConnectionClose)
+
+    One frame is packed for every level the endpoint has send keys for (Initial, Handshake, 0-RTT at the client,
+    1-RTT), coalesced. Application errors are not sent in Initial or Handshake packets: there the frame becomes a
+    transport CONNECTION_CLOSE with APPLICATION_ERROR and an empty reason phrase (RFC 9000 10.2.3). *)
+Inductive enclevel := LInitial | LHandshake | L0RTT | L1RTT.
+Definition frame_at (l : enclevel) (f : bool * Z) : bool * Z :=
+  let '(isApp, code) := f in
+  match l with
+  | LInitial | LHandshake => if isApp then (false, rl_ApplicationErrorErrorCode) else (isApp, code)
+  | _ => (isApp, code)
+  end.
+
 (** * How run() ends, and what is left in the transport's routing table
 
     If cryptoStreamHandler.StartHandshake (or the first handleHandshakeEvents) fails, run() calls
